@@ -244,6 +244,12 @@ def gen_cases(ctx: Ctx):
     for j in range(ctx.budget(3, 10)):
         cases.append(dict(kind="islands", n=r.randrange(3, 7), pop=r.randrange(5, 8), seed=r.randrange(1, 10 ** 6),
                           scale=0.004))
+    # ... with the dask batch fitness evaluator creating the populations, under several schedulers / worker counts,
+    # followed by one evolution of every island (DaskIsland): seeds, first fitness and champions per island
+    for j in range(ctx.budget(3, 10)):
+        cases.append(dict(kind="islands", n=r.randrange(2, 5), pop=r.randrange(7, 10), seed=r.randrange(1, 10 ** 6),
+                          scale=0.002, bfe=True, chunk=r.choice([None, 1, 2, 3]), evolve=True, generations=2,
+                          scheds=[SCHEDS[0], dict(scheduler="threads", workers=[2, 4, 16][j % 3])]))
     for j in range(ctx.budget(3, 10)):
         cases.append(dict(kind="bfe", n=r.randrange(3, 12), seed=r.randrange(1, 10 ** 6),
                           chunk=r.choice([None, 1, 2, 3, 5]), scale=0.003, scheds=pick_scheds(r, 2)))
@@ -291,9 +297,14 @@ def expand(case, obs):
         def cells(lst):
             if isinstance(lst, dict):
                 return None
-            return [dict(label=[k], data=[e["seed"], e["f0"]], mem=0) for k, e in enumerate(lst)]
-        s, p = cells(obs["seq"]), cells(obs["par"])
-        out.append((dict(case=case, sched="thread-pool"), s, None if p is None else ([len(p)], p), None, obs))
+            return [dict(label=[k], data=[e["seed"], e["f0"]] + ([e["champ_f"], e["champ_x"]] if "champ_f" in e else []),
+                         mem=0) for k, e in enumerate(lst)]
+        s = cells(obs["seq"])
+        scheds = case.get("scheds") or [None]
+        for sched, par in zip(scheds, obs.get("pars") or [obs["par"]]):
+            p = cells(par)
+            out.append((dict(case=case, sched="thread-pool" + ("+" + sname(sched) if sched else "")), s,
+                        None if p is None else ([len(p)], p), None, dict(seq=obs["seq"], par=par)))
         return out
     if case["kind"] == "bfe":
         s = [dict(label=[k], data=[v], mem=0) for k, v in enumerate(obs["seq"])]
